@@ -79,6 +79,21 @@ CLAIMED = {
    text="The CacheKeys fragment regenerates from the source, for every memoised/public method of the correlations and System classes, its cache key and the attributes it reads (directly, through lambdas stored by __init__, or captured constructor arguments), how Bath copies, and what each anchored function does to a user array. Lean decides on these tables that reads are direct and covered by the key, that Bath copies, and that every array site passes a static check. It proves for all operation histories (including arbitrary cache eviction) that every evaluation returns the value for the object's current attributes and that copies are independent of their originals. It proves that, for all strides, flags and nonzero shapes, every site leaves the caller's array and buffer untouched, never raises numpy's in-place-reshape error, and produces arrays determined by shape and values alone. This rests on a proof that numpy's no-copy reshape always succeeds when only unit axes are inserted, and on a simulation between the concrete and the layout-free array machines. The numpy model is validated exactly against real numpy on 9k (quick) / 43k (thorough) layout x op cases, the memo model bit-for-bit on generated histories over real objects, and 38 public APIs are run in 10 memory layouts comparing caller bytes, flags and results.",
    ref="§4 C20",
    note=TB + "numpy reshape/shape-setter/K-order-copy semantics as modelled (grid-validated, arrays without empty axes); translator grammar for self.<attr> reads, stored lambdas and the _cached_on_parameters decorator; lru_cache keys on self identity + arguments; copy.copy keeps function objects. Assumed: callees such as tensornetwork do not write into tracked arrays (observed bytewise only), underscore attributes are not user-assigned, user callables and scipy quad are deterministic. Arrays retained by reference after the call and library-returned arrays aliasing internal state are out of scope."),
+ "C15": dict(
+   technique="Lean 4 proof by reflection: a sound syntactic shift-weight checker (wt_sound, induction on a deep-embedded expression language) decided by the kernel on the table of ALL time expressions regenerated from source, + induction over steps for an abstract step machine, + binary64 rounding lemmas; differential correspondence on real runs",
+   text="Every arithmetic expression of system/tempo/pt_tempo/system_dynamics/control/pt_tebd/gradient.py that computes a time handed to a user callable, a reported label, a duration or a float->step rounding is extracted (138 sites; the role is fixed by the sink, so a dropped start_time is an obligation that fails). Proved for all sites, in every field, for every tau and any rounding function: times move by exactly tau, rounding arguments/durations/step counts do not (shift_invariant). Hence a step machine that sees time only through these expressions records identical states and labels moved by tau for every number of steps (machine_covariant), instantiated for Tempo/compute_dynamics on TimeDependentSystem, MeanFieldTempo's field equation, float control times and float correlation times. In binary64 the roundings are bit-identical under an exact shift and each time carries at most one rounding per side (partial). Tie: CPython evaluation of every site's source text vs the FloatModel reading bit-exact; real shifted/unshifted runs of Tempo, MeanFieldTempo, PtTempo+compute_dynamics (controls), compute_dynamics_with_field, compute_correlations with logged callable arguments (1e-12), values (1e-9), labels (1e-12) and bit-exact agreement of logged arguments/labels/steps with the generated expressions.",
+   ref="§4 C15",
+   note=TB + "the TimeExprs role/sink tables in tools/translate.py (names as data flow); binary64 model without overflow/subnormals; quad_vec nodes affine in its bounds and the tensor-network update not reading time are assumed (checked by the differential runs); the effect of the O(ulp) time residue on state values is measured, not proved."),
+ "C16": dict(
+   technique="Lean 4 proof over an executable model of process-tensor persistence, tied to the source by the FileFlags translator fragment and an exact differential run",
+   text="Tensors are modelled as (shape, flat data) and the HDF5 file as attributes plus datasets; _set_data_and_shape/_get_data_and_shape, export(), import_process_tensor (both types) and FileProcessTensor are modelled at the level of the h5py operations issued. Proved for every process tensor (any number/shape of MPO and cap tensors, with or without dt/transforms): get(set t)=t with the sentinel collision characterised exactly; import(export pt) preserves length, dt, dimension, transforms, name, description, every MPO and cap tensor, bond dimensions and initial tensor None, for the 'simple' import as equality of the whole object; the imported object meets compute_dynamics' preconditions; and for ANY sequence of set_* calls a file-backed and an in-memory process tensor hold the same tensor in every written slot. export()/_create_file statement order, modes, the flag tests and SimpleProcessTensor.set_initial_tensor (symbolically executed) are regenerated from the source each run; real h5py datasets, real exports/imports, compute_dynamics/correlations/gradient/PT-TEBD on imported tensors and file-backed vs in-memory PT-TEMPO are compared with the model.",
+   ref="§4 C16",
+   note=TB + "h5py stores complex128/int32 variable-length rows bit-exactly and new rows are empty; numpy reshape on logical C-order content; entries finite or NaN. Equality of the tensors PT-TEMPO computes in two runs is observed via gauge-invariant results (1e-12), not proved."),
+ "C17": dict(
+   technique="Lean 4 proof over an op-trace/crash-prefix model of process-tensor files, tied by the FileFlags translator fragment and a complete enumeration of crash points on the real code",
+   text="The writer is the list of h5py operations issued by FileProcessTensor.__init__/_create_file, set_*_tensor, close(), export() and a file-backed PT-TEMPO run; a crash after i operations leaves an unreadable file or the replay of a prefix; the reader's outcome is fail/warn/clean. Python `is True` versus truthiness is modelled with distinct constructors for True and numpy.True_. Proved for every writer (any number and order of tensors), every crash point and every persisted prefix: before close() starts the file never opens silently; at any point a silently opening file is the complete file; a completed close yields no warning, a cleared flag and complete content; mode='write' never clobbers an existing path; remove() deletes only when entitled; readers never alter a file. The flag comparisons, modes, _removeable assignments and statement orders are extracted from the source every run. A child process is killed after each h5py operation (with and without flush) and the surviving file re-imported; flushed states and the clean close must equal the model exactly, unflushed ones must be among the outcomes the model allows.",
+   ref="§4 C17",
+   note=TB + "Assumption on HDF5 (Model/PTFile.lean H1-H4, CrashState): after a crash the file is unreadable or reflects a prefix of the operations issued, truncation/creation by the open call is synchronous, h5py returns boolean attributes as numpy.bool_, open modes r/x/w behave as documented."),
  "C18": dict(
    technique="Lean 4 proof over a model regenerated from source (translator) + differential correspondence",
    text="Operand order of every control composition, the float-time->step expression, the tensor-leg wiring of both superoperator applications and the statement order of the compute_dynamics and PtTebd step loops are regenerated from the source into Lean on every run. Theorems proved for all step counts, control assignments and call histories: each control acts exactly once, at its step, before (pre) or after (post) the recorded state, first and last step included; get_controls is fully characterised, each landing call contributing exactly one factor; same-key stacks and ChainControl stacks act in insertion order; float times act at the round-half-even nearest step with explicit binary64 error bound; identity controls change nothing; PtTebd follows the same pre/post rules per site. The executable model is run against the real Control, ChainControl, compute_dynamics and PtTebd on generated schedules (every step 0..N, pre/post, int/float keys, stacks 1-3, non-trace-preserving maps, 2-3 sites) comparing all recorded states. Insertion order for int- and float-keyed controls on one step does not hold (known finding); the theorem is stack_order_partial.",
